@@ -345,8 +345,7 @@ pub fn run_c09(tier: &str, only: Option<String>) -> i32 {
         }
     }
     let sel = run.only.clone();
-    let stats = par_items(&items, Some(300_000), &|it: &C09Item| {
-        println!("VIOLATION property=C09 replay=/verif/replays/C09-hang.json");
+    let stats = par_items(&items, Some(bridge::rt::hang_limit()), &|it: &C09Item| {
         println!("  hang in scripts of length {} starting with op {}", it.len, it.first);
     }, &|it: &C09Item, st: &mut Stats| {
         if it.len == 0 {
@@ -683,8 +682,7 @@ pub fn run_c10(tier: &str, only: Option<String>) -> i32 {
         }
     }
     let sel = run.only.clone();
-    let stats = par_items(&items, Some(120_000), &|it: &C10Item| {
-        println!("VIOLATION property=C10 replay=/verif/replays/C10-hang.json");
+    let stats = par_items(&items, Some(bridge::rt::hang_limit()), &|it: &C10Item| {
         println!("  fingerprint: C10 encoding or decoding does not terminate (graphs with {} nodes, root edge list #{})", it.n, it.first);
     }, &|it: &C10Item, st: &mut Stats| {
         let lists = edge_lists(it.n);
